@@ -98,6 +98,12 @@ package revision
 
 //@ func (*revision.APIEstablisher).ReleaseObjects$1
 //@ props C16
+//@ ghost fetched bool = false
+//@ ghost written bool = false
+//@ site (client.Reader).Get(_, _, _, _)
+//@   update fetched = err == nil
+//@ ensures [C16:released-on-success] (err == nil && fetched) ==> (exists j :: 0 <= j && j < len(ors) && ors[j].UID == parent.GetUID() && (ors[j].Controller == nil || !*ors[j].Controller))
+//@ ensures [C16:release-is-persisted] (err == nil && fetched && changed) ==> written
 //@ let $old = result (*unstructured.Unstructured).GetOwnerReferences
 //@ loop range ors
 //@   invariant [C16:not-found-so-far] !found ==> forall j :: 0 <= j && j < done ==> ors[j].UID != parent.GetUID()
@@ -107,3 +113,4 @@ package revision
 //@   assert [C16:released-revision-stays-a-plain-owner] exists j :: 0 <= j && j < len($refs) && $refs[j].UID == parent.GetUID() && ($refs[j].Controller == nil || !*$refs[j].Controller)
 //@ optional site (client.Writer).Update(_, _, $o)
 //@   assert [C16:release-updates-the-fetched-object] $o == &u
+//@   update written = err == nil
